@@ -113,3 +113,7 @@ func runIsolated(f func()) (exited bool) {
 }
 
 func thorough() bool { return os.Getenv("VERIF_TIER") == "thorough" }
+
+func bOr(a, b bool) bool      { return a || b }
+func bAnd(a, b bool) bool     { return a && b }
+func bImplies(a, b bool) bool { return !a || b }
